@@ -2,7 +2,7 @@ package fscache
 
 import (
 	"os"
-	"path"
+	"sort"
 	"sync"
 
 	"github.com/goatcms/goatcore/filesystem"
@@ -64,49 +64,45 @@ func (c *Cache) Buffer() filesystem.Filespace {
 // Commit send buffered changes to remote filesystem
 func (c *Cache) Commit() (err error) {
 	var (
-		src      string
-		filemode os.FileMode
+		src     string
+		removes []string
 	)
-	c.changes.removeMU.RLock()
-	defer c.changes.removeMU.RUnlock()
-	for src = range c.changes.remove {
-		if c.remoteFS.IsFile(src) {
-			if err = c.remoteFS.Remove(src); err != nil {
-				return err
-			}
-		}
-	}
-	c.changes.removeAllMU.RLock()
-	defer c.changes.removeAllMU.RUnlock()
+	// deletions first: recursive ones, then single nodes from the deepest path
+	// up (a directory is removed after the nodes it contained). A deletion that
+	// has reached the remote leaves the journal, so a later Commit does not
+	// delete what was created at the same path afterwards.
+	c.changes.removeAllMU.Lock()
+	defer c.changes.removeAllMU.Unlock()
 	for src = range c.changes.removeAll {
 		if c.remoteFS.IsExist(src) {
 			if err = c.remoteFS.RemoveAll(src); err != nil {
 				return err
 			}
 		}
+		delete(c.changes.removeAll, src)
 	}
-	c.changes.mkdirAllMU.RLock()
-	defer c.changes.mkdirAllMU.RUnlock()
-	for src, filemode = range c.changes.mkdirAll {
-		if c.bufferFS.IsDir(src) {
-			if err = c.remoteFS.MkdirAll(src, filemode); err != nil {
+	c.changes.removeMU.Lock()
+	defer c.changes.removeMU.Unlock()
+	for src = range c.changes.remove {
+		removes = append(removes, src)
+	}
+	sort.Slice(removes, func(i, j int) bool {
+		if len(removes[i]) != len(removes[j]) {
+			return len(removes[i]) > len(removes[j])
+		}
+		return removes[i] < removes[j]
+	})
+	for _, src = range removes {
+		if c.remoteFS.IsExist(src) {
+			if err = c.remoteFS.Remove(src); err != nil {
 				return err
 			}
 		}
+		delete(c.changes.remove, src)
 	}
-	c.changes.writeMU.RLock()
-	defer c.changes.writeMU.RUnlock()
-	for src = range c.changes.write {
-		if err = c.remoteFS.MkdirAll(path.Dir(src), filesystem.DefaultUnixDirMode); err != nil {
-			return err
-		}
-		if c.bufferFS.IsFile(src) {
-			if err = fshelper.StreamCopy(c.bufferFS, c.remoteFS, src); err != nil {
-				return err
-			}
-		}
-	}
-	return nil
+	// then everything the buffer holds (created directories, written and
+	// copied files and directory trees)
+	return fshelper.Copy(c.bufferFS, c.remoteFS, nil)
 }
 
 // Copy duplicate a file or directory
